@@ -22,3 +22,5 @@ open Verif.Props.C01
 #print axioms assoc_nullish
 #print axioms minify_derives
 #print axioms minify_derives_parsed
+#print axioms toNullish_sound
+#print axioms optchain_guard_needed
